@@ -49,7 +49,7 @@ def templates():
     T += [
         ('wflip-value-20000-bits', 'x:\nwflip x, 1<<20000\n', True, None),
         ('empty-segment-at-a-20000-bit-address', ';0\nsegment 1<<20000\nx:\n', True, None),
-        ('empty-segment-at-2^w', ';0\nsegment 1<<w\nx:\n', True, None),
+        ('empty-segment-above-2^w', ';0\nsegment (1<<w)+2*w\nx:\n', True, None),
         ('reserve-negative-20000-bits', ';\nreserve 0-(1<<20000)*w\n', True, None),
         ('pad-negative-20000-bits', ';\npad 0-(1<<20000)\n', True, None),
         ('decimal-literal-5000-digits', ';' + '9' * 5000 + '\n', True, None),
